@@ -2,7 +2,7 @@
 //! here from how the request was built (never by asking the library). Body decodability is known by
 //! construction and double-checked with the third-party codecs (serde_json / beve), not with repe.
 
-use super::srv::{ALL_T, CODES, ERASED_OP_ERR_PAYLOAD, OP_ERR_PAD, T, Tin, Tout, code_of, erased_spec, reg_val, slice_result};
+use super::srv::{ALL_T, CODES, ERASED_OP_ERR_PAYLOAD, FAIL_MODES, OP_ERR_PAD, T, Tin, Tout, code_of, erased_spec, fail_name, fail_of, reg_val, slice_result};
 use crate::common::*;
 use crate::oracle::{self, SpecHeader};
 use serde_json::{Value, json};
@@ -19,6 +19,8 @@ pub enum ExpBody {
     U64s(Vec<u64>),
     /// custom erased handler: exactly these fields; query None = echo of the request query
     Exact { qf: u16, bf: u16, query: Option<Vec<u8>>, body: Vec<u8> },
+    /// success: this body format and exactly these body bytes (a result that does not decode into the result record)
+    Bytes(u16, Vec<u8>),
 }
 
 #[derive(Clone, Debug)]
@@ -161,15 +163,45 @@ fn exp(label: &str, t: T, allowed: Vec<u32>, invoked: bool, body: ExpBody) -> Ex
     Expect { label: format!("{label}:{}", t.path()), allowed, dispatched: true, invoked, body }
 }
 
-fn handler_outcome(t: T, r: &Tin, typed_formats: bool) -> Expect {
-    let out = Tout { t: r.t, r: t.path().to_string(), pad: r.pad.clone() };
-    match r.op {
-        1 => exp("handler-error", t, vec![code_of(r.c) as u32], true, ExpBody::Open),
-        3 if typed_formats => exp("ok", t, vec![0], true, ExpBody::Tout(out, 1)),
-        4 if typed_formats => exp("ok", t, vec![0], true, ExpBody::Tout(out, 3)),
-        5 if typed_formats => exp("ok", t, vec![0], true, ExpBody::Tout(out, 0)),
-        _ => exp("ok", t, vec![0], true, ExpBody::Tout(out, 2)),
+/// Kinds whose handler returns the `Tout` record itself (so the library has to serialize it).
+pub fn returns_record(t: T) -> bool {
+    matches!(t, T::Typed | T::TCtx | T::BTyped | T::BTCtx | T::Jth | T::StEcho)
+}
+
+/// Third-party encoding of the record a handler returned, the way the kind hands it to a codec (struct methods go
+/// through a JSON value first; everything else is encoded directly). Never through repe.
+pub fn encode_result(t: T, out: &Tout, bf: u16) -> Result<Vec<u8>, String> {
+    if t == T::StEcho {
+        serde_json::to_value(out).and_then(|v| serde_json::to_vec(&v)).map_err(|e| e.to_string())
+    } else if bf == 1 {
+        beve::to_vec(out).map_err(|e| e.to_string())
+    } else {
+        serde_json::to_vec(out).map_err(|e| e.to_string())
     }
+}
+
+fn handler_outcome(t: T, r: &Tin, typed_formats: bool) -> Expect {
+    let fail = if returns_record(t) { fail_of(r.c) } else { 0 };
+    let out = Tout { t: r.t, r: t.path().to_string(), pad: r.pad.clone(), fail };
+    if r.op == 1 {
+        return exp("handler-error", t, vec![code_of(r.c) as u32], true, ExpBody::Open);
+    }
+    let bf = match r.op {
+        3 if typed_formats => 1,
+        4 if typed_formats => 3,
+        5 if typed_formats => 0,
+        _ => 2,
+    };
+    if fail != 0 {
+        // The handler returned a value the codec cannot encode (decided with the third-party codec alone). The statement
+        // names no code for this; the code is the one the library's error types map a failed encode to: RepeError::Json /
+        // RepeError::Beve -> ParseError (5), struct methods: StructError::Serialize -> InvalidBody (4).
+        return match encode_result(t, &out, bf) {
+            Err(_) => exp("result-unserializable", t, vec![if t == T::StEcho { 4 } else { 5 }], true, ExpBody::Open),
+            Ok(bytes) => exp("ok", t, vec![0], true, ExpBody::Bytes(bf, bytes)),
+        };
+    }
+    exp("ok", t, vec![0], true, ExpBody::Tout(out, bf))
 }
 
 /// Body + expectation for a request that reaches target `t`.
@@ -188,7 +220,11 @@ fn build_body(t: T, token: u64, qlen: usize, rng: &mut Rng, st: &mut GenStats) -
                 _ if typed_formats => *rng.pick(&[0u8, 0, 0, 1, 1, 2, 3, 4, 5]),
                 _ => *rng.pick(&[0u8, 0, 0, 1]),
             };
-            let r = Tin { t: token, op, c: rng.below(CODES.len() as u64) as u8, pad: pad(rng) };
+            let mut r = Tin { t: token, op, c: rng.below(CODES.len() as u64) as u8, pad: pad(rng) };
+            // one success in six of a kind that returns the record asks for a result that cannot be serialized
+            if returns_record(t) && !matches!(op, 1 | OP_ERR_PAD) && rng.chance(1, 6) {
+                r.c = *rng.pick(&FAIL_MODES) << 4;
+            }
             let bf = *rng.pick(&[2u16, 2, 2, 2, 1, 1, 1, 3, 3, 0, 4, 0xffff]);
             if !matches!(bf, 1 | 2 | 3) {
                 return Built { bf, body: enc(2, &r), variant: "unacceptable-format", expect: exp("body-format", t, vec![4], false, ExpBody::Open) };
@@ -220,7 +256,7 @@ fn build_body(t: T, token: u64, qlen: usize, rng: &mut Rng, st: &mut GenStats) -
             if !decodes(fam, t, bf, &body) {
                 st.classifier_disagreements += 1;
             }
-            Built { bf, body, variant: "well-formed", expect: handler_outcome(t, &r, typed_formats) }
+            Built { bf, body, variant: fail_name(if returns_record(t) && r.op != 1 { fail_of(r.c) } else { 0 }), expect: handler_outcome(t, &r, typed_formats) }
         }
         T::Slice | T::SRef => {
             let op = *rng.pick(&[0u64, 0, 0, 1]);
@@ -621,6 +657,104 @@ pub fn reflect_seqs(seq_base: u64, rng: &mut Rng, st: &mut GenStats, overhead: &
         }
         out.push((seq, reqs));
         seq += 1;
+    }
+    out
+}
+
+// ------------------------------------------------------------------ results that fail to serialize part-way
+
+/// One well-formed request to a kind that answers with the `Tout` record. `fail` != 0 (kinds that return the record
+/// itself): the handler's result cannot be serialized. `op` selects the response format of the with_typed* kinds.
+pub fn record_req(token: u64, t: T, op: u8, fail: u8, notify: u8, rng: &mut Rng) -> Req {
+    let typed_formats = matches!(t, T::Typed | T::TCtx | T::BTyped | T::BTCtx);
+    let fail = if returns_record(t) { fail } else { 0 };
+    let r = Tin { t: token, op: if typed_formats { op } else { 0 }, c: fail << 4, pad: pad(rng) };
+    let bf = *rng.pick(&[2u16, 2, 2, 1, 3]);
+    Req {
+        id: id_of(token),
+        token,
+        version: 1,
+        notify,
+        qf: 1,
+        query: t.path().as_bytes().to_vec(),
+        bf,
+        body: enc(bf, &r),
+        target: Some(t),
+        variant: fail_name(fail),
+        expect: handler_outcome(t, &r, typed_formats),
+        reflect: None,
+    }
+}
+
+const RECORD_KINDS: [T; 6] = [T::Typed, T::TCtx, T::BTyped, T::BTCtx, T::Jth, T::StEcho];
+const PLAIN_KINDS: [T; 11] = [T::Json, T::JCtx, T::BJson, T::BJCtx, T::Typed, T::TCtx, T::BTyped, T::BTCtx, T::Jth, T::StEcho, T::RegFn];
+
+#[derive(Clone, Copy, PartialEq, Eq, Debug, Hash)]
+pub enum SerRole {
+    /// the pipeline itself contains requests whose result fails to serialize
+    Failing,
+    /// only ordinary requests; runs on other connections of the same servers at the same time
+    Bystander,
+}
+
+/// Groups of pipelines that run concurrently on the same servers: one or two pipelines in which requests whose RESULT
+/// fails to serialize part-way (every fail mode x JSON / BEVE / UTF-8 / raw response format x every kind that returns the
+/// record, notify 0 and 1) alternate with ordinary requests, next to bystander pipelines of ordinary requests only.
+pub fn ser_groups(seq_base: u64, rng: &mut Rng, groups: usize) -> Vec<Vec<(u64, SerRole, Vec<Req>)>> {
+    let mut out = vec![];
+    let mut seq = seq_base;
+    let mut combo = 0usize;
+    for g in 0..groups {
+        let mut group = vec![];
+        let n_fail = 1 + (g % 2);
+        for k in 0..n_fail + 3 {
+            let role = if k < n_fail { SerRole::Failing } else { SerRole::Bystander };
+            let len = match rng.below(4) {
+                0 => 64,
+                1 => 2 + rng.usize_below(6),
+                _ => 8 + rng.usize_below(56),
+            };
+            let mut reqs = vec![];
+            let mut tok = seq * 256 + 1;
+            while reqs.len() < len {
+                let failing = role == SerRole::Failing && (reqs.is_empty() || rng.chance(2, 5));
+                if failing {
+                    // walk the (kind, fail mode, response format) product so that every cell comes up early
+                    let t = RECORD_KINDS[combo % 6];
+                    let fail = FAIL_MODES[(combo / 6) % 4];
+                    let op = [0u8, 3, 4, 5, 2][(combo / 24) % 5];
+                    combo += 1 + rng.usize_below(3);
+                    reqs.push(record_req(tok, t, op, fail, if rng.chance(1, 5) { 1 } else { 0 }, rng));
+                } else {
+                    let t = *rng.pick(&PLAIN_KINDS);
+                    // mostly JSON-answered; some BEVE / UTF-8 / raw answers of the with_typed* kinds
+                    let op = *rng.pick(&[0u8, 0, 0, 0, 2, 3, 4, 5]);
+                    reqs.push(record_req(tok, t, op, 0, if rng.chance(1, 8) { 1 } else { 0 }, rng));
+                }
+                tok += 1;
+            }
+            if role == SerRole::Failing {
+                reqs.truncate(62);
+                if k == 0 && g % 4 < 2 {
+                    // the connection ENDS with a failed JSON serialization (whatever it left behind on the serving thread
+                    // meets another connection next)
+                    let t = RECORD_KINDS[combo % 6];
+                    let fail = FAIL_MODES[(combo / 6) % 3];
+                    combo += 1;
+                    reqs.push(record_req(tok, t, 0, fail, (g % 4) as u8, rng));
+                } else {
+                    // something ordinary (JSON-answered) right behind the last failed serialization
+                    for _ in 0..1 + rng.usize_below(2) {
+                        let t = *rng.pick(&PLAIN_KINDS);
+                        reqs.push(record_req(tok, t, 0, 0, 0, rng));
+                        tok += 1;
+                    }
+                }
+            }
+            group.push((seq, role, reqs));
+            seq += 1;
+        }
+        out.push(group);
     }
     out
 }
